@@ -17,6 +17,19 @@ func condLockAliases(p *Prog, rel string, condF *types.Var) map[*types.Var]bool 
 				return
 			}
 			fv, base := fieldVar(st.Addr)
+			// a sync.Cond held by value whose L is set directly: x.cond.L = &x.M
+			if fv != nil && fv.Name() == "L" {
+				if cf, cbase := fieldVar(base); cf == condF {
+					if mf, mbase := fieldVar(stripConv(st.Val)); mf != nil {
+						rb, _ := fieldChain(cbase)
+						rm, _ := fieldChain(mbase)
+						if rb == rm && rb != nil {
+							out[mf] = true
+						}
+					}
+				}
+				return
+			}
 			if fv != condF {
 				return
 			}
@@ -49,6 +62,15 @@ func (p *Prog) condAliasClasses() map[string]string {
 		allInstrs(f, func(i ssa.Instruction) {
 			st, ok := i.(*ssa.Store)
 			if !ok {
+				return
+			}
+			// x.cond.L = &x.M (a sync.Cond held by value)
+			if lf, lbase := fieldVar(st.Addr); lf != nil && lf.Name() == "L" && typeStr(lf.Type()) == "sync.Locker" {
+				croot, cchain := fieldChain(lbase)
+				mroot, mchain := fieldChain(stripConv(st.Val))
+				if croot != nil && croot == mroot && len(cchain) > 0 && len(mchain) > 0 {
+					p.condAlias[LockPath{Root: mroot, Chain: mchain}.Class()] = LockPath{Root: croot, Chain: cchain}.Class() + ".L"
+				}
 				return
 			}
 			call, ok := stripConv(st.Val).(*ssa.Call)
